@@ -5,7 +5,9 @@ Import ListNotations.
 (** implementation observation: Some exact value of the returned double, or the error class *)
 Inductive tobs := TVal (q : Q) | TInf (neg : bool) | TNan | TErr (e : err).
 
-Record case := { c_str : str; c_obs1 : tobs; c_obs2 : tobs }.   (* dcm_time_to_sec, tm_to_seconds *)
+(* c_valid: the string is a valid DICOM TM value (the property speaks of those only; what the two functions do with anything
+   else - reject it, or convert it somehow - is not compared, so that stricter input validation is not reported) *)
+Record case := { c_str : str; c_valid : bool; c_obs1 : tobs; c_obs2 : tobs }.   (* dcm_time_to_sec, tm_to_seconds *)
 
 Definition obs_of (r : res fval) : tobs :=
   match r with
@@ -25,7 +27,8 @@ Definition tobs_eqb (a b : tobs) : bool :=
   end.
 
 Definition check (c : case) : bool :=
-  tobs_eqb (obs_of (dcm_time_to_sec (c_str c))) (c_obs1 c) &&
-  tobs_eqb (obs_of (tm_to_seconds (c_str c))) (c_obs2 c).
+  negb (c_valid c) ||
+  (tobs_eqb (obs_of (dcm_time_to_sec (c_str c))) (c_obs1 c) &&
+   tobs_eqb (obs_of (tm_to_seconds (c_str c))) (c_obs2 c)).
 
 Definition show (c : case) := (obs_of (dcm_time_to_sec (c_str c)), obs_of (tm_to_seconds (c_str c))).
